@@ -3,6 +3,7 @@ package crypto
 import (
 	"context"
 	"crypto/rand"
+	"encoding/binary"
 	"fmt"
 	"github.com/allegro/bigcache/v3"
 	oasisEd25519 "github.com/oasisprotocol/curve25519-voi/primitives/ed25519"
@@ -200,14 +201,19 @@ func (b *BatchVerifier) verifyAll(idx int) (badIndices []int) {
 func (bt *BatchTuple) Key() string {
 	// get the public key bytes
 	pk := bt.PublicKey.Bytes()
-	// calculate the total length of the key
-	totalLen := len(pk) + len(bt.Message) + len(bt.Signature)
+	// calculate the total length of the key (two 8 byte length prefixes delimit the parts so that
+	// bytes can't be shifted between the public key, the message and the signature)
+	totalLen := 8 + len(pk) + 8 + len(bt.Message) + len(bt.Signature)
 	// create the buffer and offset variables
 	b, offset := make([]byte, totalLen), 0
-	// copy pubkey in first part
+	// copy the length of the pubkey and the pubkey in first part
+	binary.BigEndian.PutUint64(b[offset:], uint64(len(pk)))
+	offset += 8
 	copy(b[offset:], pk)
 	offset += len(pk)
-	// copy message in second part
+	// copy the length of the message and the message in second part
+	binary.BigEndian.PutUint64(b[offset:], uint64(len(bt.Message)))
+	offset += 8
 	copy(b[offset:], bt.Message)
 	offset += len(bt.Message)
 	// copy signature in third part
